@@ -198,7 +198,7 @@ func runSeq(rp *explore.Report, tier string) {
 			continue
 		}
 		d := datasets[di]
-		res := rt.Execute(rt.Config{MaxSteps: 5000000, MaxClock: 1000}, func() {
+		res := rt.Execute(rt.Config{MaxSteps: 50000000, MaxClock: 10000000}, func() {
 			ctx, cancel := rt.WithCancel(context.Background())
 			defer cancel()
 			g, err := fedfix.NewGateway(ctx, d, a, nil)
@@ -281,8 +281,8 @@ func runSeq(rp *explore.Report, tier string) {
 		rp.Execs++ // one execution under the scheduler (default schedule) per assignment
 		rp.Transitions += int64(res.Steps)
 		rp.AddState(res.HBFinal)
-		if res.Deadlock || len(res.Panics) > 0 || res.StepCap {
-			msg := fmt.Sprintf("deadlock=%v blocked=%v stepcap=%v", res.Deadlock, res.Blocked, res.StepCap)
+		if res.Deadlock || len(res.Panics) > 0 || res.StepCap || res.ClockCap {
+			msg := fmt.Sprintf("deadlock=%v blocked=%v stepcap=%v clockcap=%v", res.Deadlock, res.Blocked, res.StepCap, res.ClockCap)
 			for _, p := range res.Panics {
 				msg += " panic: " + p.Value
 			}
